@@ -8,7 +8,7 @@ only=$1; tier=${2:-quick}; shift; shift
 WT=/tmp/seedwt.$$
 trap 'git -C /repo worktree remove --force $WT 2>/dev/null; git -C /repo worktree prune; rm -rf /tmp/seedout.$$' EXIT
 git -C /repo worktree add --detach $WT HEAD >/dev/null 2>&1 || exit 2
-for d in seeded/C*-*; do
+for d in seeded/C*-${SEEDSUFFIX:-*}; do
   id=$(basename $d); prop=$(echo $id | cut -d- -f1)
   [ -n "$only" ] && [ "$only" != "all" ] && [ "$only" != "$id" ] && continue
   git -C $WT apply $V/$d/patch.diff 2>/dev/null || { echo "$id APPLY-FAILED"; continue; }
